@@ -20,7 +20,7 @@
 (* track the exact ones within eps x natural scale; flat-after-volatile)    *)
 (* are decided here.                                                       *)
 (***************************************************************************)
-EXTENDS Machines, Ranges, Tally, Json, IOUtils, TLC
+EXTENDS Machines, Ranges, IEEE, Tally, Json, IOUtils, TLC
 
 Rec  == ndJsonDeserialize(IOEnv.TRACE)
 Prop == IOEnv.PROP
@@ -37,13 +37,19 @@ VARIABLES l,        \* next line to consume
           pos,      \* ghost: all inputs of this stream so far were positive
           aux,      \* ghost: data that depends on the configuration only (Alma kernel weights), evaluated once per stream
           gap,      \* number of inputs consumed by the last line (answers in between were not recorded if > 1)
+          ext,      \* ghost: <<smallest, largest>> input of this stream (what Ema averages), <<>> before the first
           sid       \* stream number
-vars == <<l, hd, win, agg, cnt, maxabs, cur, prv, curm, mst, pos, aux, gap, sid>>
+vars == <<l, hd, win, agg, cnt, maxabs, cur, prv, curm, mst, pos, aux, gap, ext, sid>>
 
-KMem(cfg, mode) == IF mode # "window" THEN 1000000000
+KMem(cfg, mode) == IF mode \in {"range", "interval"} THEN (IF HasField(cfg, "n") THEN cfg.n ELSE 1)
+                   ELSE IF mode # "window" THEN 1000000000
                    ELSE IF cfg.k \in {"Rsi", "MyRSI", "Roc"} THEN cfg.n + 1 ELSE cfg.n
 
 AbsI(x) == IF x < 0 THEN -x ELSE x
+RECURSIVE ExtFold(_, _, _)
+ExtFold(e, xs, i) == IF i > Len(xs) THEN e
+                     ELSE ExtFold(IF e = <<>> THEN <<xs[i], xs[i]>>
+                                  ELSE <<IF xs[i] < e[1] THEN xs[i] ELSE e[1], IF xs[i] > e[2] THEN xs[i] ELSE e[2]>>, xs, i + 1)
 RECURSIVE MaxAbsSeq(_, _, _)
 MaxAbsSeq(xs, i, m) == IF i > Len(xs) THEN m ELSE MaxAbsSeq(xs, i + 1, IF AbsI(xs[i]) > m THEN AbsI(xs[i]) ELSE m)
 
@@ -61,7 +67,7 @@ RECURSIVE MFold(_, _, _, _)
 MFold(cfg, m, xs, i) == IF i > Len(xs) THEN m ELSE MFold(cfg, TM_Step(cfg, m, QFrac(xs[i], hd.unit)), xs, i + 1)
 
 Init == /\ l = 1 /\ hd = <<>> /\ win = <<>> /\ agg = AggInit /\ cnt = 0 /\ maxabs = 0
-        /\ cur = <<"n">> /\ prv = <<"n">> /\ curm = <<"n">> /\ aux = <<>> /\ mst = <<>> /\ pos = TRUE /\ gap = 0 /\ sid = 0
+        /\ cur = <<"n">> /\ prv = <<"n">> /\ curm = <<"n">> /\ aux = <<>> /\ mst = <<>> /\ pos = TRUE /\ gap = 0 /\ ext = <<>> /\ sid = 0
 
 IsHeader(e) == "cfg" \in DOMAIN e
 Next == /\ l <= Len(Rec)
@@ -71,7 +77,7 @@ Next == /\ l <= Len(Rec)
            THEN /\ hd' = e /\ win' = <<>> /\ agg' = AggInit /\ cnt' = 0 /\ maxabs' = 0
                 /\ cur' = <<"n">> /\ prv' = <<"n">> /\ curm' = <<"n">> /\ gap' = 0 /\ sid' = sid + 1
                 /\ mst' = IF e.mode = "machine" THEN TM_Init(e.cfg) ELSE <<>>
-                /\ pos' = TRUE
+                /\ pos' = TRUE /\ ext' = <<>>
                 /\ aux' = IF e.cfg.k = "Alma" /\ e.mode = "window" THEN AlmaWeights(e.cfg.n, SigmaOf(e.cfg), OffsetOf(e.cfg)) ELSE <<>>
            ELSE /\ win' = LastK(win \o e.xs, KMem(hd.cfg, hd.mode))
                 /\ agg' = IF hd.mode = "rolling" THEN AggFold(agg, e.xs, 1) ELSE agg
@@ -81,6 +87,7 @@ Next == /\ l <= Len(Rec)
                 /\ curm' = IF "m" \in DOMAIN e THEN e.m ELSE <<"n">>
                 /\ mst' = IF hd.mode = "machine" THEN MFold(hd.cfg, mst, e.xs, 1) ELSE mst
                 /\ pos' = (pos /\ \A i \in 1..Len(e.xs) : e.xs[i] > 0)
+                /\ ext' = ExtFold(ext, e.xs, 1)
                 /\ UNCHANGED <<hd, sid, aux>>
 
 -----------------------------------------------------------------------------
@@ -106,7 +113,7 @@ Expected == CASE hd.mode = "full"    -> TreeDef(hd.cfg, XQ(win))
               [] hd.mode = "window"  -> WindowDef(hd.cfg, XQ(win))
               [] hd.mode = "rolling" -> RollingDef(hd.cfg)
               [] hd.mode = "machine" -> LET mo == TM_Out(hd.cfg, mst) IN IF mo = MUndef THEN RAny ELSE mo
-              [] hd.mode \in {"range", "nopanic", "alive"} -> RAny
+              [] hd.mode \in {"range", "interval", "nopanic", "alive"} -> RAny
 
 (* natural scale of an output: width of the range for bounded indicators, largest input magnitude otherwise *)
 Scale(cfg, want) ==
@@ -149,9 +156,26 @@ RangeVerdict == \/ ~OIsSome(cur)
                 \/ (Tally("range." \o hd.cfg.k) /\ RangeOf(hd.cfg, cur, IF gap = 1 THEN prv ELSE <<"n">>, pos))
                 \/ Report("range")
 
+(* C04 / C07 on recorded streams: an average stays inside the closed interval of the values it averages (Sma, Alma: the window,
+   i.e. Min <= Sma, Alma <= Max; Ema: every value so far), "up to a few ulps of the bound itself, never by more".  The answer is
+   decoded exactly from its bit key; the slack covers the rounding of the inputs x/unit themselves and of the N additions. *)
+AvgBounds == IF HasField(hd.cfg, "c") \/ ext = <<>> THEN <<FALSE, 0, 0>>
+             ELSE IF hd.cfg.k \in {"Sma", "Alma"} THEN LET e == ExtFold(<<>>, LastK(win, hd.cfg.n), 1) IN <<TRUE, e[1], e[2]>>
+             ELSE IF hd.cfg.k = "Ema" THEN <<TRUE, ext[1], ext[2]>>
+             ELSE <<FALSE, 0, 0>>
+IntervalOK(o) ==
+    LET b == AvgBounds IN
+    \/ ~b[1]
+    \/ LET lo == QFrac(b[2], U) hi == QFrac(b[3], U) v == KeyQ(OKey(o))
+           ulps == <<WFromInt((IF HasField(hd.cfg, "n") THEN hd.cfg.n ELSE 1) + 8), P52>>
+       IN  /\ Tally("interval." \o hd.cfg.k)
+           /\ QLe(QSub(lo, QMul(ulps, QAbs(lo))), v) /\ QLe(v, QAdd(hi, QMul(ulps, QAbs(hi))))
+IntervalVerdict == ~OIsSome(cur) \/ IntervalOK(cur) \/ Report(IF hd.mode = "range" THEN "range-order" ELSE "interval")
+
 Verdict == \/ hd = <<>> \/ cnt = 0
            \/ /\ Tally("events")
-              /\ IF hd.mode = "range" THEN RangeVerdict
+              /\ IF hd.mode = "range" THEN RangeVerdict /\ IntervalVerdict
+                 ELSE IF hd.mode = "interval" THEN IntervalVerdict
                  ELSE IF hd.mode = "nopanic" THEN (~OIsPanic(cur) /\ Tally("nopanic")) \/ Report("panic")
                  ELSE IF hd.mode = "alive" THEN
                       \* very long streams (beyond 2^16 updates), answers sampled: no panic, finite, readiness never reverts
